@@ -10,9 +10,14 @@ open Spec
 
 /-- `PosFacts` plus: a move the rule book allows is accepted by `Move`; positions that show the same board,
 reserves and ply have the same `Hash()` -/
-structure PosFacts2 (basis : Array W) (Inv : Pos → Prop) : Prop extends PosFacts basis Inv where
-  complete : ∀ p m s', Inv p → Spec.step (Spec.abs p) (Spec.decode m) = some s' → ∃ p', p.apply basis m = .ok p'
+structure PosFacts2 (basis : Array W) (size : Nat) (Inv : Pos → Prop) (Ok : Pos → Move → Prop) : Prop
+    extends PosFacts basis size Inv Ok where
+  complete : ∀ p m s', Inv p → Ok p m → Spec.step (Spec.abs p) (Spec.decode m) = some s' →
+    ∃ p', p.apply basis m = .ok p'
   hash_abs : ∀ p q, Inv p → Inv q → Spec.abs p = Spec.abs q → p.hashOf = q.hashOf
+  /-- the side condition holds for every rule-book-legal move of every position of the invariant (with C01's
+  `Ok`: a legal move is not the pass; the 64-piece limit follows from a piece budget carried by `Inv`) -/
+  ok_of_legal : ∀ p m, Inv p → (Spec.step (Spec.abs p) (Spec.decode m)).isSome = true → Ok p m
 
 /-- each board of the list shows the image of `b0` under its index -/
 def BoardsRel (Inv : Pos → Prop) (n : Nat) (l : List (Pos × Fin 8)) (b0 : State) : Prop :=
@@ -34,7 +39,7 @@ theorem raw_onB (k : Sym) (n : Int) (m : Move) : onB n (Sym.raw k n m).x (Sym.ra
   rw [h1, h2]; exact Sym.onB_app k n m.x m.y
 
 /-- the scan by hashes is the scan by boards -/
-theorem scan_sim {basis : Array W} {Inv : Pos → Prop} (F : PosFacts2 basis Inv) {n : Nat} (hn : n ≤ 8)
+theorem scan_sim {basis : Array W} {n : Nat} {Inv : Pos → Prop} {Ok : Pos → Move → Prop} (F : PosFacts2 basis n Inv Ok) (hn : n ≤ 8)
     (b0 : State) (hb0 : b0.size = n) (q0 : Pos) (hq0 : Inv q0) (ha0 : Spec.abs q0 = b0)
     (m : Move) (hm : onB n m.x m.y) :
     ∀ (l : List (Pos × Fin 8)) (best : Move) (rot : Option (Fin 8)), BoardsRel Inv n l b0 →
@@ -90,7 +95,7 @@ theorem scan_sim {basis : Array W} {Inv : Pos → Prop} (F : PosFacts2 basis Inv
       exact ih _ _ hrest hncr
 
 /-- the eight replays: all succeed, and the new boards show the images of the new board 0 -/
-theorem replay_sim {basis : Array W} {Inv : Pos → Prop} (F : PosFacts2 basis Inv) {n : Nat} (hn : n ≤ 8)
+theorem replay_sim {basis : Array W} {n : Nat} {Inv : Pos → Prop} {Ok : Pos → Move → Prop} (F : PosFacts2 basis n Inv Ok) (hn : n ≤ 8)
     (b0 b0' : State) (hb0 : b0.size = n) (hwf : b0.WF) (m : Move) (hm : onB n m.x m.y)
     (hstep : Spec.step b0 (Spec.decode m) = some b0') :
     ∀ (l : List (Pos × Fin 8)), BoardsRel Inv n l b0 →
@@ -112,8 +117,9 @@ theorem replay_sim {basis : Array W} {Inv : Pos → Prop} (F : PosFacts2 basis I
       have := Sym.step_equivariant k b0 hwf (Spec.decode m)
       rw [hb0] at this
       rw [this, hstep]; rfl
-    obtain ⟨q', hq'⟩ := F.complete q (Sym.raw k n m) _ i1 hs
-    obtain ⟨j1, j2, j3⟩ := F.apply q (Sym.raw k n m) q' i1 hq'
+    have hok : Ok q (Sym.raw k n m) := F.ok_of_legal q _ i1 (by rw [hs]; rfl)
+    obtain ⟨q', hq'⟩ := F.complete q (Sym.raw k n m) _ i1 hok hs
+    obtain ⟨j1, j2, j3⟩ := F.apply q (Sym.raw k n m) q' i1 hok hq'
     refine ⟨q' :: l', ?_, by simp [r2], ?_⟩
     · simp only [Tak.canonReplay, htm, hq', r1, bind, Except.bind, pure, Except.pure]
     · intro x hx
@@ -159,7 +165,7 @@ theorem withIndex_snd {l : List Pos} (h : l.length = 8) : (withIndex l).map (·.
 theorem finRange8_drop : (List.finRange 8).drop 1 = ([1, 2, 3, 4, 5, 6, 7] : List (Fin 8)) := by decide
 
 /-- **One iteration**: if the list-level step succeeds, so does the model's, with related results. -/
-theorem canonStep_sim {basis : Array W} {Inv : Pos → Prop} (F : PosFacts2 basis Inv) {n : Nat} (hn : n ≤ 8)
+theorem canonStep_sim {basis : Array W} {n : Nat} {Inv : Pos → Prop} {Ok : Pos → Move → Prop} (F : PosFacts2 basis n Inv Ok) (hn : n ≤ 8)
     (ist : Tak.CanonSt) (sst sst' : Spec.CanonSt) (m0 : Move) (hrel : Rel Inv n ist sst)
     (hnc : ∀ p q, Inv p → Inv q → Spec.abs q = sst.b0 → (∃ k : Sym, Spec.abs p = Sym.state k sst.b0) →
       p.hashOf = q.hashOf → Spec.abs p = Spec.abs q)
@@ -285,7 +291,7 @@ def NoCollisionAt (Inv : Pos → Prop) (b0 : State) : Prop :=
   ∀ p q, Inv p → Inv q → Spec.abs q = b0 → (∃ k : Sym, Spec.abs p = Sym.state k b0) →
     p.hashOf = q.hashOf → Spec.abs p = Spec.abs q
 
-theorem canonLoop_sim {basis : Array W} {Inv : Pos → Prop} (F : PosFacts2 basis Inv) {n : Nat} (hn : n ≤ 8)
+theorem canonLoop_sim {basis : Array W} {n : Nat} {Inv : Pos → Prop} {Ok : Pos → Move → Prop} (F : PosFacts2 basis n Inv Ok) (hn : n ≤ 8)
     (ms : List Move) (init : Spec.CanonSt)
     (hnc : ∀ pre st, pre <+: ms → Spec.canonRun init pre = some st → NoCollisionAt Inv st.b0) :
     ∀ (ms₂ pre : List Move) (ist : Tak.CanonSt) (sst sst' : Spec.CanonSt), pre ++ ms₂ = ms →
@@ -314,7 +320,7 @@ theorem canonLoop_sim {basis : Array W} {Inv : Pos → Prop} (F : PosFacts2 basi
 /-- **The bit-level model of `Canonical` computes the list-level canonical form** of every game for which
 the latter exists (i.e. every legal game), on sizes 3..8, given `PosFacts2` and no collisions between a
 canonical board of a prefix of the game and a different image of it. -/
-theorem canonical_refines {basis : Array W} {Inv : Pos → Prop} (F : PosFacts2 basis Inv) {n : Nat}
+theorem canonical_refines {basis : Array W} {n : Nat} {Inv : Pos → Prop} {Ok : Pos → Move → Prop} (F : PosFacts2 basis n Inv Ok)
     (hn : n ∈ [3, 4, 5, 6, 7, 8]) (ms out : List Move) (hc : Spec.canon n ms = some out)
     (hnc : ∀ pre st, pre <+: ms → Spec.canonRun ⟨startState n, 0, []⟩ pre = some st → NoCollisionAt Inv st.b0) :
     Tak.canonical basis n ms = .ok out := by
@@ -331,7 +337,7 @@ theorem canonical_refines {basis : Array W} {Inv : Pos → Prop} (F : PosFacts2 
     | ok p =>
       rw [hp] at hnew
       simp only at hnew
-      obtain ⟨s1, _⟩ := new_ok hp
+      obtain ⟨s1, _⟩ := new_size_ok hp
       have hrel : Rel Inv n { boards := List.replicate 8 p, moves := [], rots := [], tfn := [0] }
           ⟨startState n, 0, []⟩ := by
         refine ⟨by simp, ?_, startState_WF n, rfl, by simp [Symm.prod, Sym.mul_one], rfl, rfl⟩
@@ -341,7 +347,7 @@ theorem canonical_refines {basis : Array W} {Inv : Pos → Prop} (F : PosFacts2 
           have := (List.of_mem_zip hqk).1
           exact List.eq_of_mem_replicate this
         rw [hq]
-        exact ⟨F.new _ _ hp, by rw [hnew, startState_sym], s1⟩
+        exact ⟨F.new _ hp, by rw [hnew, startState_sym], s1⟩
       obtain ⟨ist', e1, r1⟩ := canonLoop_sim F hn8 ms _ hnc ms [] _ _ sst' rfl rfl hrel hr
       unfold Tak.canonical
       simp only [hp, e1, bind, Except.bind, pure, Except.pure]
